@@ -17,7 +17,9 @@ import itertools
 
 ID = "C06b"
 LEVEL = "proof"
-HARNESSES = [{"name": "main", "src": "harness.cpp", "flags": ["-O1", "-DTETL_ENABLE_CONTRACT_CHECKS=1"]}]
+HARNESSES = [{"name": "main", "src": "harness.cpp", "flags": ["-O1", "-DTETL_ENABLE_CONTRACT_CHECKS=1"]},
+             # another build mode (thorough tier): full optimisation, contract checks compiled out
+             {"name": "o2", "src": "harness.cpp", "flags": ["-O2"], "thorough_only": True}]
 
 RULE = ("exhaustive: every sequence of length <= 5 over 3 keys (thorough: <= 6 over 4 keys, length 7 sampled; two-range "
         "operations: first range <= 6 over 3 keys), every "
